@@ -1694,6 +1694,9 @@ class Interp:
         return ('diverge', 'return', e['line'])
 
     def e_Try(self, e, env, **kw):
+        if e['expr'].get('k') == 'MethodCall' and e['expr'].get('method') == 'try_for_each':
+            # `iter.try_for_each(|x| ..)?` is `for x in iter { ..? }`: the only way to stop early is the error that leaves the function
+            self.frame['propagated_try_for_each'] = e['expr'].get('line')
         v = self.expr(e['expr'], env)
         fr = self.frame
         cs = fr['conds'][fr.get('nconds0', 0):]
@@ -2462,7 +2465,7 @@ class Interp:
             mapped = self.opt_method('map', recv, args_nodes[1:], env)
             return self.unwrap_or(mapped, self.apply(self.expr(args_nodes[0], env), []))
         if m in ('map', 'filter', 'filter_map', 'flat_map', 'any', 'all', 'find', 'for_each', 'position', 'inspect', 'and_then', 'unwrap_or_else',
-                 'map_err', 'find_map', 'map_or', 'is_some_and', 'then', 'or_else', 'take_while', 'skip_while', 'max_by_key', 'min_by_key'):
+                 'map_err', 'find_map', 'map_or', 'is_some_and', 'then', 'or_else', 'take_while', 'skip_while', 'max_by_key', 'min_by_key', 'try_for_each', 'map_while'):
             if m in ('map', 'and_then', 'map_or', 'is_some_and') and self.is_optionish(recv, e['recv']):
                 return self.opt_method(m, recv, args_nodes, env)
             if m in ('unwrap_or_else', 'or_else'):
@@ -2686,6 +2689,9 @@ class Interp:
             r = self.call_value(fn, [body])
         finally:
             self.frame['loops'].pop()
+        if m == 'try_for_each' and self.frame.get('propagated_try_for_each') == node.get('line'):
+            self.frame['propagated_try_for_each'] = None
+            return ('tuple', [])
         if m in ('any', 'all', 'find', 'find_map', 'position', 'take_while', 'skip_while', 'map_while', 'try_for_each', 'is_some_and'):
             # a short-circuiting consumer / prefix adapter stops calling the closure once it has its answer: whatever the closure *does* (a
             # recursive visit, an insertion, an update) happens for a prefix of the elements only - recorded as a condition of those effects
